@@ -170,12 +170,13 @@ class Renderer:
     return "from pymtl3 import *\n\n" + "\n".join(self.struct_src) + "\n" + "\n".join(cls_src)
 
 
-def load_design(design, variant=None, scratch=None):
-  """renders, writes to a fresh file, imports; returns (TopClass, source, cleanup())"""
-  tag = f"g{next(_uid)}"
+def load_design(design, variant=None, scratch=None, tag=None, modname=None):
+  """renders, writes to a fresh file, imports; returns (TopClass, source, cleanup()).  tag/modname can be fixed
+  by the caller (C13 needs byte-identical class names and file paths across processes)"""
+  tag = tag or f"g{next(_uid)}"
   src = Renderer(design, variant).source(tag)
   scratch = scratch or os.getcwd()
-  modname = f"vfgen_{os.getpid()}_{tag}_{hashlib.sha1(src.encode()).hexdigest()[:8]}"
+  modname = modname or f"vfgen_{os.getpid()}_{tag}_{hashlib.sha1(src.encode()).hexdigest()[:8]}"
   path = os.path.join(scratch, modname + ".py")
   with open(path, "w") as f:
     f.write(src)
